@@ -243,6 +243,9 @@ def judge_pty(case):
                 text = " " + base
             elif r < 0.45 and prev is not None:
                 text = prev
+            elif r < 0.57 and prev is not None:
+                # a line typed with a leading blank that is rewritten by `!!` before it runs: still not recorded
+                text = " !! zzB%d" % k
             else:
                 text = base + " %d" % k
             res["typed"].append(text)
@@ -263,7 +266,7 @@ def judge_pty(case):
     got = [r[1] for r in rows(db)]
     res["rows"], res["want"] = got, want
     if got != want:
-        if any(g.startswith(" ") or (" " + g) in [t for t in res["typed"] if t.startswith(" ")] and g not in want for g in got):
+        if any("zzB" in g for g in got) or any(g.startswith(" ") or (" " + g) in [t for t in res["typed"] if t.startswith(" ")] and g not in want for g in got):
             return ("violated", "C18:interactive:line-with-leading-blank-recorded", res)
         if len(got) > len(want):
             return ("violated", "C18:interactive:repeat-or-extra-row-recorded:dir=%s" % feature(dname), res)
